@@ -80,6 +80,11 @@ pub struct Connection {
     /// Selected database (default 0)
     pub db_index: usize,
     
+    /// Commands that arrived in the same read as a blocking command, behind it:
+    /// they are carried out (and answered) only after the blocking command has
+    /// been answered
+    pub deferred_frames: std::collections::VecDeque<crate::protocol::RespFrame>,
+    
     /// Transaction state
     pub transaction_state: TransactionState,
     
@@ -112,6 +117,7 @@ impl Connection {
             last_activity: now,
             created_at: now,
             db_index: 0,
+            deferred_frames: std::collections::VecDeque::new(),
             transaction_state: TransactionState::default(),
             is_monitoring: false,
             name: None,
